@@ -14,6 +14,23 @@ CHECKS = {
           'assumption: non-degenerate triangle; KKT/non-negativity are core in a canonical frame, generality in orientation via solver-proved rotation invariance of every dot product.'),
     technique='symbolic execution of LLVM IR + z3 nonlinear real arithmetic; native replay of counterexamples',
     design='3/C05'),
+ 'C01': dict(
+    level='other',
+    text=('Bounded symbolic checking of the remeshing operations: every split / can_be_merged+merge / swap on every edge of the catalogue meshes (4-6 nodes quick, up to 7 thorough), refinement passes with at most k '
+          'edges outside the length band, and pass-compaction-move-pass-compaction chains are executed from the LLVM IR with symbolic coordinates; z3 decides which paths exist. On every path an independent oracle '
+          '(triangle list only) checks closedness, consistent orientation, genus, duplicate triangles, live nodes, and the cell\'s own edge set, counts, free queues and ids; z3 proves cached normals/areas agree with the winding '
+          'and that a split keeps the signed volume; the ordering key of std::set<edge> is proved injective below 2^26 ids (integer encoding validated against the real edge::hash).'),
+    note='Trusted: clang lowering (validated per run incl. whole passes), irsym + red-black-tree shim, normaliser, z3. Bounds: catalogue connectivity, <= 2 passes, <= k out-of-band edges per pass (k=1 quick, 2 thorough), passes with swapping disabled. Assumption: pre-state from the real constructor in generic position.',
+    technique='symbolic execution of LLVM IR with concrete topology per path + independent topological oracle + z3 (path feasibility, geometric obligations, integer key injectivity)',
+    design='3/C01'),
+ 'C11': dict(
+    level='other',
+    text=('Bounded symbolic proof of the neutrality/selectivity of remeshing on the same explorations as C01 with symbolic momenta and labels: z3 proves per path conservation of total momentum, new nodes at edge midpoints, '
+          'survivors untouched, summed momentum on merge, volume (and parent areas) kept by splits; label inheritance and untouched faces are checked on the concrete topology; a pass changes the mesh only if an edge is outside '
+          'the band and leaves a conforming mesh unchanged; every explored path of refine_mesh returns or throws mesh_integrity_exception.'),
+    note='Same trusted base and bounds as C01. Termination is claimed only for the explored (bounded) paths.',
+    technique='symbolic execution of LLVM IR + z3 on normalised polynomial obligations; native replay',
+    design='3/C11'),
  'C02': dict(
     level='other',
     text=('Bounded symbolic proof: apply_pressure_on_surface, apply_surface_tension_and_membrane_elasticity (whole mesh; T4,T5 quick, +T6 thorough), apply_bending_forces (one hinge at a time) '
